@@ -816,13 +816,17 @@ ENTRY_POINTS = ("Retry", "Policy", "RetryPolicy", "Retry.context", "Policy.conte
 CALL_ONLY = {e for e in ENTRY_POINTS if "context" in e or "decorator" in e}
 
 
-def make_entry(entry: str, env: Env, ctor: dict, call: dict, breaker=None):
+def make_entry(entry: str, env: Env, ctor: dict, call: dict, breaker=None, ops=None):
     """-> invoke(mode) that performs one call through the named entry point and returns the
     result (sync) or a coroutine (async).  `ctor`/`call` as built by retry_kwargs."""
     import redress.policy as rp
 
     is_async = entry.startswith(("Async", "async"))
     op = env.aop if is_async else env.op
+    if ops is not None:
+        # distinct operation functions per run (re-entrancy): ops["cur"]() picks the one to pass
+        def op():
+            raise AssertionError("unused")
     base = entry.split(".")[0]
     if entry.endswith(".from_config"):
         # the RetryConfig bundle must configure the same machine as the keyword constructor
@@ -899,9 +903,15 @@ def make_entry(entry: str, env: Env, ctor: dict, call: dict, breaker=None):
             return op()
 
         def via_ctx_sync(mode):
+            if ops is not None:
+                fn = ops["cur"]()          # this run's own function object
+                with ctx_obj as r:
+                    return r(lambda x, *, y=None: fn(), 1, y=2)
             with ctx_obj as r:
                 return r(op_args, 1, y=2)
         return via_ctx_sync
+    if ops is not None:
+        return lambda mode: (obj.call if mode == "call" else obj.execute)(ops["cur"](), **call)
     return lambda mode: (obj.call if mode == "call" else obj.execute)(op, **call)
 
 
@@ -1040,6 +1050,24 @@ class ProxyEnv:
     def aop(self):
         return self._e().aop()
 
+    def astart(self, ctx):
+        return self._e().astart(ctx)
+
+    def aend(self, ctx):
+        return self._e().aend(ctx)
+
+    def decoy_handler(self, ctx, s):
+        return self._e().decoy_handler(ctx, s)
+
+    def decoy_before_sleep(self, ctx, s):
+        return self._e().decoy_before_sleep(ctx, s)
+
+    def decoy_sleeper(self, s):
+        return self._e().decoy_sleeper(s)
+
+    def make_budget(self, *a, **kw):
+        return self._e().make_budget(*a, **kw)
+
     def op(self):
         hook = getattr(self, "before_op", None)
         if hook is not None:
@@ -1048,7 +1076,7 @@ class ProxyEnv:
 
 
 def run_nested(cfg: dict, events_a: list[dict], events_b: list[dict], *, entry: str = "Retry",
-               nest_at: int = 1, place: str = "ctor"):
+               nest_at: int = 1, place: str = "ctor", force_mode: str | None = None):
     """Re-entrancy on ONE sync policy object: run A's nest_at-th operation invocation first makes a
     complete run B through the same object, then produces its own outcome.  -> (trace_a, trace_b).
     cfg must not use a budget (each run has its own clock)."""
@@ -1056,8 +1084,23 @@ def run_nested(cfg: dict, events_a: list[dict], events_b: list[dict], *, entry: 
     px = ProxyEnv(envs)
     px.is_async = False
     ctor, call = retry_kwargs(px, cfg, place=place)   # type: ignore[arg-type]
-    invoke = make_entry(entry, px, ctor, call)         # type: ignore[arg-type]
+    # each run passes its OWN function object: run A's retries must invoke A's function again
+    fns: list = []
+
+    def make_fn(i):
+        def fn():
+            if i == 0:
+                before_op()
+            return envs[i].op()
+        fn.__name__ = f"operation_{'ab'[i]}"
+        return fn
+    ops = {"cur": lambda: fns[px.cur]}
+    invoke = make_entry(entry, px, ctor, call, ops=ops)         # type: ignore[arg-type]
     modes = [next((e["mode"] for e in ev if e["e"] == "deliver"), "exec") for ev in (events_a, events_b)]
+    if entry in CALL_ONLY:
+        modes = ["call", "call"]
+    elif force_mode:
+        modes = [force_mode, force_mode]
     results: list = [None, None]
     state = {"nested": False}
 
@@ -1075,7 +1118,7 @@ def run_nested(cfg: dict, events_a: list[dict], events_b: list[dict], *, entry: 
             run(1)
             px.cur = 0
             vtime.set_active(envs[0].clock)
-    px.before_op = before_op
+    fns.extend([make_fn(0), make_fn(1)])
     try:
         for e in envs:
             e.start_run()
